@@ -11391,7 +11391,7 @@ func (p *parser) visitAndAppendStmt(stmts []js_ast.Stmt, stmt js_ast.Stmt) []js_
 				// Mark if this function is an empty function
 				hasSideEffectFreeArguments := true
 				for _, arg := range s.Fn.Args {
-					if _, ok := arg.Binding.Data.(*js_ast.BIdentifier); !ok {
+					if _, ok := arg.Binding.Data.(*js_ast.BIdentifier); !ok || arg.DefaultOrNil.Data != nil {
 						hasSideEffectFreeArguments = false
 						break
 					}
